@@ -16,7 +16,8 @@
 //!   pv     ::= E | (A u i)              peeled prefix, in binder order
 //!   answer ::= (Unique [u ...] [<ty> ...] has_constraints) | NoSolution
 //!            | (AmbigDefinite [u ...] [<ty> ...]) | (AmbigSuggested [u ...] [<ty> ...]) | AmbigUnknown
-//!            | (Answers [<item> ...] complete)   (Multiple)     item ::= (Definite us tys hc) | (Ambiguous us tys hc) | Floundered
+//!            | (Answers [<item> ...] complete [flag ...])   (Multiple)   item ::= (Definite us tys hc) | (Ambiguous us tys hc) | Floundered
+//!                                                flag = the callback's 2nd argument ("a next answer exists"), one per item
 //!            | (Lim <answer> ncalls)             (Limited)
 //!            | (Panic "msg") | Timeout | (Abort "why") | Skipped
 //!   ty     ::= (App "label" [<ty> ...]) | (BV i) | (IBV d i) | (Ph u i) | Free
@@ -340,8 +341,10 @@ fn solve_one(db: &ChalkDatabase, program: &Arc<Program>, solver: &mut Box<dyn So
         Mode::Fresh | Mode::History => solution_sexp(program, &pe, solver.solve(db, &pe.goal)),
         Mode::Multiple(k) => {
             let mut items = vec![];
+            let mut flags = vec![];
             let k = *k;
-            let complete = solver.solve_multiple(db, &pe.goal, &mut |res, _next| {
+            let complete = solver.solve_multiple(db, &pe.goal, &mut |res, next| {
+                flags.push(Sexp::boolean(next));
                 let it = match res {
                     SubstitutionResult::Definite(c) => {
                         let (us, tys) = subst_sexp(program, &pe, &c.binders, &c.value.subst);
@@ -356,7 +359,7 @@ fn solve_one(db: &ChalkDatabase, program: &Arc<Program>, solver: &mut Box<dyn So
                 items.push(it);
                 items.len() < k
             });
-            Sexp::App("Answers".into(), vec![Sexp::List(items), Sexp::boolean(complete)])
+            Sexp::App("Answers".into(), vec![Sexp::List(items), Sexp::boolean(complete), Sexp::List(flags)])
         }
         Mode::Limited(_) | Mode::LimitedFrom(_) => {
             let calls = Cell::new(0u64);
